@@ -101,6 +101,42 @@ def fmt_atom(fn, a):
 
 
 # ---------------------------------------------------------------------- atoms
+def local_consts(fn):
+    """{local variable: constant} for locals whose every assignment (incl. the initialiser) stores the same literal
+    constant and that are never stepped or passed by address"""
+    lc = getattr(fn, "_local_consts", None)
+    if lc is not None:
+        return lc
+    vals, bad = {}, set()
+    for el in fn.all_elements():
+        for sub in ir.walk(fn, el.e):
+            t = sub[0]
+            if t == "d":
+                v, rhs = sub[1], sub[2]
+                if rhs is None:
+                    continue
+            elif t == "=":
+                l = ir.strip_casts(sub[1])
+                if not (isinstance(l, list) and l[0] == "v"):
+                    continue
+                v, rhs = l[1], sub[2]
+            elif t in ("o=", "u"):
+                l = ir.strip_casts(sub[2])
+                if isinstance(l, list) and l[0] == "v" and (t == "o=" or "+" in sub[1] or "-" in sub[1] or sub[1] == "&"):
+                    bad.add(l[1])
+                continue
+            else:
+                continue
+            r = ir.peel(fn, rhs)
+            if isinstance(r, list) and r[0] == "i" and isinstance(r[1], int):
+                vals.setdefault(v, set()).add(r[1])
+            else:
+                bad.add(v)
+    lc = {v: next(iter(c)) for v, c in vals.items() if len(c) == 1 and v not in bad and fn.vars[v]["k"] != "p"}
+    fn._local_consts = lc
+    return lc
+
+
 def cond_atoms(fn, cond, truth, depth=0):
     """atoms known to hold when `cond` evaluates to `truth`"""
     e = cond
@@ -134,7 +170,14 @@ def cond_atoms(fn, cond, truth, depth=0):
             op = NEG[op]
         if rk and rk[0] == "i":
             return [("cmp", lk, op, rk[1])]
-        return [("rel", lk, op, rk)]
+        out = [("rel", lk, op, rk)]
+        # a local that only ever holds one literal constant stands for that constant
+        lc = local_consts(fn)
+        if rk and rk[0] == "v" and rk[1] in lc:
+            out.append(("cmp", lk, op, lc[rk[1]]))
+        elif lk and lk[0] == "v" and lk[1] in lc and rk:
+            out.append(("cmp", rk, FLIP[op], lc[lk[1]]))
+        return out
     if t == "i":
         return []
     if t == "=":
@@ -620,6 +663,35 @@ def assignment_atoms(fn, e):
     return out
 
 
+def self_update_atoms(fn, e, s):
+    """atoms about X after `X = X + c`, `X += c`, `X++` (c a literal constant), from the atoms about X before"""
+    v = c = None
+    if e[0] == "=":
+        l = ir.strip_casts(e[1])
+        r = ir.peel(fn, e[2])
+        if isinstance(l, list) and l[0] == "v" and isinstance(r, list) and r[0] == "b" and r[1] in ("+", "-"):
+            a, b = ir.peel(fn, r[2]), ir.peel(fn, r[3])
+            if a == l and isinstance(b, list) and b[0] == "i" and isinstance(b[1], int):
+                v, c = l[1], (b[1] if r[1] == "+" else -b[1])
+            elif r[1] == "+" and b == l and isinstance(a, list) and a[0] == "i" and isinstance(a[1], int):
+                v, c = l[1], a[1]
+    elif e[0] == "o=" and e[1] in ("+=", "-="):
+        l = ir.strip_casts(e[2])
+        b = ir.peel(fn, e[3])
+        if isinstance(l, list) and l[0] == "v" and isinstance(b, list) and b[0] == "i" and isinstance(b[1], int):
+            v, c = l[1], (b[1] if e[1] == "+=" else -b[1])
+    if v is None or not s or s is UNIVERSE:
+        return []
+    out = []
+    k = ("v", v)
+    for a in s:
+        if a[0] == "cmp" and a[1] == k and isinstance(a[3], int):
+            out.append(("cmp", k, a[2], a[3] + c))
+        elif a[0] == "rel" and a[1] == k and not (key_vars(a[3]) & {v}):
+            out.append(("rel", k, a[2], ("b", "+", a[3], ("i", c)) if c >= 0 else ("b", "-", a[3], ("i", -c))))
+    return out
+
+
 class _Universe(frozenset):
     """state of a path on which a THROW has already been executed (the error
     is reported): every fact holds vacuously; identity of the join"""
@@ -633,6 +705,23 @@ INFEASIBLE = object()
 CURRENT = None          # the Facts instance whose edge_gen callback is running (its edge_state is the state before the edge)
 
 
+def key_atoms(K, truth, depth=0):
+    """atoms that hold when the (pure) expression with key K evaluates to `truth` (cond_atoms on keys)"""
+    if not isinstance(K, tuple) or depth > 8:
+        return []
+    if K[0] == "b" and K[1] in NEG and isinstance(K[3], tuple) and K[3][0] == "i":
+        return [("cmp", K[2], K[1] if truth else NEG[K[1]], K[3][1])]
+    if K[0] == "b" and K[1] == "&&":
+        return key_atoms(K[2], True, depth + 1) + key_atoms(K[3], True, depth + 1) if truth else []
+    if K[0] == "b" and K[1] == "||":
+        return key_atoms(K[2], False, depth + 1) + key_atoms(K[3], False, depth + 1) if not truth else []
+    if K[0] == "u" and K[1] == "!":
+        return key_atoms(K[2], not truth, depth + 1)
+    if K[0] in ("c", "m", "v", "x"):
+        return [("cmp", K, "!=" if truth else "==", 0)]
+    return []
+
+
 def derive_atoms(atoms, s):
     """consequences of branch atoms about a local that holds the value of an expression (z = f(x); if (z) ...;
     neg = (g(b) == K); if (neg) ...; limit = C; if (n > limit) ...): the same atoms about the expression itself"""
@@ -643,12 +732,11 @@ def derive_atoms(atoms, s):
                 if b[0] == "rel" and b[1] == a[1] and b[2] == "==":
                     K = b[3]
                     out.append(("cmp", K, a[2], a[3]))
-                    # the local holds a comparison: truthiness of the local decides the comparison
-                    if isinstance(K, tuple) and K[0] == "b" and K[1] in NEG and isinstance(K[3], tuple) and K[3][0] == "i":
-                        if entails(a[2], a[3], "!=", 0):
-                            out.append(("cmp", K[2], K[1], K[3][1]))
-                        elif entails(a[2], a[3], "==", 0):
-                            out.append(("cmp", K[2], NEG[K[1]], K[3][1]))
+                    # the local holds a comparison / a conjunction: truthiness of the local decides its parts
+                    if entails(a[2], a[3], "!=", 0):
+                        out += key_atoms(K, True)
+                    elif entails(a[2], a[3], "==", 0):
+                        out += key_atoms(K, False)
         elif a[0] == "rel" and isinstance(a[3], tuple) and a[3][0] == "v":
             for b in s:
                 if b[0] == "cmp" and b[1] == a[3] and b[2] == "==" and isinstance(b[3], int):
@@ -700,6 +788,7 @@ class Facts:
             return s
         w = self.writes(node)
         self.pre = s
+        shifted = self_update_atoms(self.fn, node.el.e, s)
         if self.extra_kill:
             s = self.extra_kill(node, s)
             if s is UNIVERSE:
@@ -725,6 +814,8 @@ class Facts:
             add = assignment_atoms(self.fn, node.el.e)
             if add:
                 s = s | frozenset(add)
+            if shifted:
+                s = s | frozenset(shifted)
         if self.gen:
             add = self.gen(node, s, self.pre)
             if add:
